@@ -150,7 +150,7 @@ func main() {
 			} else {
 				for k, a := range answers {
 					c := ctx.cases[idx[k]]
-					if a != c.Impl {
+					if normAnswer(a) != normAnswer(c.Impl) {
 						res.Disagree(c.Line, c.Impl, a, c.Props)
 					}
 				}
@@ -168,6 +168,14 @@ func main() {
 		}
 	}
 	os.Exit(exit)
+}
+
+// normAnswer: panic messages are never compared, only the fact that the call panics.
+func normAnswer(s string) string {
+	if strings.HasPrefix(s, "panic") {
+		return "panic"
+	}
+	return s
 }
 
 func isFlagSet(name string) bool {
